@@ -8,6 +8,7 @@ From Demes Require Import Base.Num Base.Py Model.MDM Model.SizeAt Spec.Valid
   Proofs.SizeAtProofs.
 Import ListNotations.
 Local Open Scope string_scope.
+Local Open Scope list_scope.
 
 Section C13.
   Context {N : NumOps} {L : NumLaws N}.
